@@ -17,7 +17,7 @@ PROP = "C12"
 MANIFEST = dict(
     level="model_checking", design_ref="DESIGN.md 8 (C12), 7 (Track)",
     technique="TLA+ model of the track tree (TLC, all operation histories up to a bound) against a property monitor; TLC behaviours replayed on a real track tree with index-coded sounds; TLC trace validation against P_C12",
-    text="TLC explores every history of up to 3-4 operations (pause/resume/resume_at with delayed, clock and missing-clock start times and fades of 0 or 2 chunks on parent or child track, dropping either handle, stopping either sound, persistence on/off) interleaved with callbacks, against the monitor: subtree silent while an ancestor is paused, sounds continue from exactly the frozen frame (index continuity), removal not before and at the callback after the track becomes removable, never while a descendant handle lives, state() one of five values and never panicking. The same histories are executed on real tracks and validated by TLC.",
+    text="TLC explores every history of up to 3-4 operations (pause/resume/resume_at with delayed, clock and missing-clock start times and fades of 0 or 2 chunks on parent or child track, dropping either handle, stopping either sound, persistence on/off) interleaved with callbacks, against the monitor: subtree silent while an ancestor is paused, sounds continue from exactly the frozen frame (index continuity), removal not before and at the callback after the track becomes removable, never while a descendant handle lives, state() one of five values and never panicking. The same histories are executed on real tracks and validated by TLC. Every third history runs with track B as a transparent spatial track (listener and emitter at one place, no attenuation, strength 0).",
     note="Scene: a chain main <- A <- B [<- C] (depth 2 or 3) with one sound per track. Re-pausing a track that already reports a paused state is outside the generated domain (it un-freezes the subtree during the silent fade; the statement does not cover it). A resume at a start time may begin its fade-in one callback after the start time (the chunk in which the start time arrives is processed at zero gain): accepted as 'within one callback'.")
 
 
